@@ -21,7 +21,8 @@ def saturating_weight(birth, pers, a=1.0):
 
 
 KERNELS = ("iso-scalar", "iso-matrix", "diag", "corr", "corr-high", "uniform", "user")
-WEIGHTS = ("persistence", "persistence-n2", "linear_ramp", "ramp-zero-below", "user", "lambda")
+WEIGHTS = ("persistence", "persistence-n2", "linear_ramp", "ramp-zero-below", "ramp-int-params", "user", "lambda")
+BOUNDED_WEIGHTS = ("linear_ramp", "ramp-zero-below", "ramp-int-params")     # finite at infinite persistence
 
 
 def gen_config(rng, max_res=10):
@@ -66,6 +67,8 @@ def weight_of(cfg):
         return "linear_ramp", {"low": 0.5, "high": 2.0, "start": 0.1, "end": 1.0}
     if w == "ramp-zero-below":
         return "linear_ramp", {"low": 0.0, "high": 1.0, "start": 0.3, "end": 0.8}
+    if w == "ramp-int-params":       # the parameters as Python ints, as in the documentation's examples
+        return "linear_ramp", {"low": 0, "high": 2, "start": 0, "end": 1}
     if w == "user":
         return saturating_weight, {"a": 1.5}
     if w == "lambda":
@@ -155,6 +158,9 @@ def gen_bd_diagram(rng, cfg, max_n=6, allow_empty=True):
     if rng.random() < 0.2:
         pts = [[float(round(x * 4) / 4) for x in q] for q in pts]
         pts = [[q[0], max(q)] for q in pts]
+    # Essential classes (infinite death) are deliberately not generated: the imager does not define their image
+    # (the default persistence weight gives inf*0 = nan, correlated kernels give nan as well), so rejecting or
+    # imaging them differently would be a legitimate change, not a violation of C11.
     return pts
 
 
@@ -162,8 +168,8 @@ def check_bd(pts):
     if not isinstance(pts, list):
         raise InvalidCase("diagram")
     for q in pts:
-        if not (isinstance(q, list) and len(q) == 2 and all(isinstance(x, (int, float)) and math.isfinite(x) for x in q)
-                and q[1] >= q[0]):
+        if not (isinstance(q, list) and len(q) == 2 and all(isinstance(x, (int, float)) for x in q)
+                and math.isfinite(q[0]) and not math.isnan(q[1]) and q[1] >= q[0]):
             raise InvalidCase("diagram row")
 
 
